@@ -528,10 +528,14 @@ func (in *Interp) eqNilAware(x, y value) *smt.Term {
 		return in.ctx.Bool(xv == nil && isNilValue(y))
 	case *bigBytes:
 		return in.ctx.False() // compared with nil: Bytes() never returns nil... treat as non-nil
+	case *opaqueBytes:
+		return in.tokenNilEq(xv, y)
 	case *closure, *ssa.Function, *ssa.Builtin, *nativeFn:
 		return in.ctx.Bool(isNilValue(x) && isNilValue(y))
 	}
-	switch y.(type) {
+	switch yv := y.(type) {
+	case *opaqueBytes:
+		return in.tokenNilEq(yv, x)
 	case *bigBytes:
 		return in.ctx.False()
 	case *closure, *ssa.Function, *ssa.Builtin, *nativeFn:
@@ -798,6 +802,8 @@ func (in *Interp) conv(dst, src types.Type, x value) value {
 					rs = append(rs, rune(in.termInt(t, eb).Int64()))
 				}
 				return string(rs)
+			case *opaqueBytes:
+				in.unsupported("string(codec token)")
 			case *bigBytes:
 				s := in.materialize(xv)
 				bs := make([]*smt.Term, len(s))
@@ -881,6 +887,8 @@ func (in *Interp) materialize(v value) sliceV {
 		return s
 	case *bigBytes:
 		return in.bigToBytes(s.t, -1)
+	case *opaqueBytes:
+		in.unsupported("byte access to a " + s.kind + " codec token")
 	case nil:
 		return nil
 	}
@@ -1413,6 +1421,8 @@ func (in *Interp) callBuiltin(caller *frame, fn *ssa.Builtin, args []value) valu
 			return in.intConst(intB, big.NewInt(int64(len(x))))
 		case *bigBytes:
 			return in.bigBytesLen(x)
+		case *opaqueBytes:
+			return in.opaqueBytesLen(x)
 		case *mapV:
 			if x == nil {
 				return in.intConst(intB, big.NewInt(0))
@@ -1435,6 +1445,8 @@ func (in *Interp) callBuiltin(caller *frame, fn *ssa.Builtin, args []value) valu
 			return in.intConst(intB, big.NewInt(int64(cap(x))))
 		case *bigBytes:
 			return in.bigBytesLen(x)
+		case *opaqueBytes:
+			return in.opaqueBytesLen(x)
 		case *chanV:
 			if x == nil {
 				return in.intConst(intB, big.NewInt(0))
